@@ -3,7 +3,7 @@
 From Coq Require Import ZArith List Bool String Ascii.
 From Coq.Strings Require Import Byte.
 From EsVerif.Common Require Import Base Bytes.
-From EsVerif.C16 Require Import Model Spec.
+From EsVerif.C16 Require Import Model Spec Ext.
 Local Open Scope list_scope.
 
 (* compact constructors for the printed terms *)
@@ -46,3 +46,38 @@ Definition v_descr (ml : bool) (fs : list field) (indescr out : descr) (parsed :
   verdict (valid_dtype_b (DStruct fs) && descr_eqb (descr_of ml fs) indescr
            && descr_eqb (descr_to_native (descr_of ml fs)) out)
           (stripped_check (DStruct fs) parsed).
+
+(* ---- extension (Ext.v) *)
+(* recfile/Util.to_native: o1 = to_native(a), o2 = to_native(o1.result).  The property is demanded on
+   the arrays of the quantifier; arrays whose fields have different orders are compared with the model
+   (every field converted on its own) only. *)
+Definition v_rec_native (ml : bool) (a : arr) (o1 o2 : outcome) : Z :=
+  let m1 := rec_to_native ml a in
+  let m2 := rec_to_native ml (o_res m1) in
+  verdict (arr_wf_b a && outcome_eqb m1 o1 && outcome_eqb m2 o2)
+          (if uniform_b ml (adt a)
+           then rec_native_check_core ml a o1 && arr_eqb (o_res o2) (o_res o1)
+           else true).
+
+(* a conversion function called on a non-contiguous view of a larger buffer, twice; [base1] = the rows
+   of the owning buffer after the first call *)
+Definition rows_eqb := list_eqb bytes_eqb.
+Definition v_view (ml : bool) (f : conv) (d : dtype) (sh : list nat) (base : list (list byte)) (idx : list nat)
+           (ip keep : bool) (o1 o2 : outcome) (base1 : list (list byte)) : Z :=
+  let m := apply_view f ml d sh base idx ip keep in
+  let m2 := apply f ml (o_res (fst m)) ip keep in
+  verdict (view_wf_b d base idx && outcome_eqb (fst m) o1 && rows_eqb (snd m) base1 && outcome_eqb m2 o2)
+          ((if uniform_b ml d then conv_check ml f (view_arr d sh base idx) ip keep o1 o2 else true)
+           && view_check d base idx ip o1 base1).
+
+(* nested structured dtype: [a] carries the leaf fields, [top] what the field scan sees.  The property
+   is demanded when the leaves share one order and the top level decides as the leaves would, at both
+   calls (a nested field hides its leaves from the scan: outside the quantifier). *)
+Definition v_conv_top (ml : bool) (f : conv) (top : list order) (a : arr) (ip keep : bool) (o1 o2 : outcome) : Z :=
+  let m1 := apply_top f ml top a ip keep in
+  let top2 := if doswap_top f ml top && negb keep then map (swap_order ml) top else top in
+  let m2 := apply_top f ml top2 (o_res m1) ip keep in
+  verdict (arr_wf_b a && outcome_eqb m1 o1 && outcome_eqb m2 o2)
+          (if uniform_b ml (adt a) && Bool.eqb (doswap_top f ml top) (leaf_decision f ml a)
+              && Bool.eqb (doswap_top f ml top2) (leaf_decision f ml (o_res m1))
+           then conv_check ml f a ip keep o1 o2 else true).
